@@ -61,7 +61,9 @@ RULE = (
     "--average; (circuit) CDCs printed from random gen_circuit trees, fit-model CDCs and mock identifiers x -f/-F/-npd; "
     "(fit) 9 mock circuits x perturbed start values x 9 methods x 4 weights x {max-nfev, refinements, running count, "
     "fixed parameters, labels} on mock specifiers and on files; (drt) tr-nnls {real, imaginary, complex} x {lambda fixed "
-    "| automatic} x {max-iter given | default}, lm {matrix_rank | fixed order}, mrq-fit, x threshold x analyze-peaks; a few "
+    "| automatic} x {max-iter given | default}, lm {matrix_rank | fixed order}, mrq-fit, x threshold x analyze-peaks; (multi) fit/drt "
+    "invocations with 2-3 data sets (several specifiers, a wildcard, a 2-3 sweep file) x 0/1/2 refinements, every data set "
+    "compared with its own API route from the CDC as given; a few "
     "of each as real subprocesses. A job is non-trivial when at least one table with >= 1 number was compared; distinct = "
     "distinct (clause, format, option cell, input kind, method cell) keys."
 )
@@ -194,21 +196,23 @@ def _rand_fmt(rng, job):
 # ------------------------------------------------------------------------------------------------
 # job generators (all concrete and JSON-able)
 # ------------------------------------------------------------------------------------------------
-def _file_input(rng, cfg=None, sweeps=None, physical=False):
+def _file_input(rng, cfg=None, sweeps=None, physical=False, nsweeps=1):
     """Returns (file record, input record, list of descending frequency lists per data set)."""
     for _ in range(50):
         if cfg is None:
             layout = str(rng.choice(["csv", "csv", "csv", "csv"] + sorted(F.INST)))
+            if physical and nsweeps > 1:
+                layout = str(rng.choice(["csv", "csv", "mpt"]))  # the layouts that can hold several sweeps
             if layout == "csv":
                 pinned = {"mode": str(rng.choice(["ext:.csv", "ext:.txt", "ext:.CSV"]))}
                 if physical:
-                    pinned.update(nsweeps=1, numfmt=str(rng.choice(["repr", "g17", "E15", "e7"])))
+                    pinned.update(nsweeps=nsweeps, numfmt=str(rng.choice(["repr", "g17", "E15", "e7"])))
                 c = F.random_csv_config(rng, pinned)
             else:
                 c = F.random_inst_config(rng, layout)
                 c["mode"] = str(rng.choice(["ext", "ext", "extlower", "extupper"]))
                 if physical:
-                    c["nsweeps"] = 1
+                    c["nsweeps"] = nsweeps
         else:
             c = cfg
         if c is None:
@@ -510,6 +514,84 @@ def gen_drt_job(rng, allow_slow=False):
     return job
 
 
+MULTI_WILD = {"CIRCUIT_2": "CIRCUIT_2*", "CIRCUIT_3": "CIRCUIT_3*", "CIRCUIT_5": "CIRCUIT_5*"}  # each matches <ID> and <ID>_INVALID only
+
+
+def _multi_input(rng, job, mid, noises=("0.05", "0.2", "0.5", "1")):
+    """2-3 data sets in ONE invocation: several specifiers of the same circuit (adjacent, so the CLI's grouping by label keeps
+    the input order), a wildcard specifier, or a 2-3 sweep file written by the C06 writers.  Returns the number of data sets."""
+    from pyimpspec import generate_mock_data
+
+    k = int(rng.choice([2, 2, 3]))
+    seed0 = int(rng.integers(0, 100000))
+    base = {"noise": str(rng.choice(noises))}
+    if rng.random() < 0.3:
+        base["num_per_decade"] = str(int(rng.choice([5, 8])))
+    r = rng.random()
+    if r < 0.25 and mid in MULTI_WILD:
+        kw = dict(base, seed=str(seed0))
+        job["inputs"].append({"mock": MULTI_WILD[mid], "kw": kw, "spec": _spec(MULTI_WILD[mid], kw), "cell": "mock:wild-2"})
+        n = 2
+    elif r < 0.65:
+        for i in range(k):
+            kw = dict(base, seed=str(seed0 + i))
+            job["inputs"].append({"mock": mid, "kw": kw, "spec": _spec(mid, kw), "cell": "mock:%d-specs" % k})
+        n = k
+    else:
+        sweeps = []
+        for i in range(k):
+            with warnings.catch_warnings():
+                warnings.simplefilter("ignore")
+                d = generate_mock_data(mid, **_typed_kwargs(dict(base, seed=str(seed0 + i))))[0]
+            sweeps.append(([float(x) for x in d.get_frequencies(masked=None)], [complex(z) for z in d.get_impedances(masked=None)]))
+        rec, inp, fsets = _file_input(rng, sweeps=sweeps, physical=True, nsweeps=k)
+        job["files"].append(rec)
+        job["inputs"].append(inp)
+        n = len(fsets)
+    job["lpf"] = job["hpf"] = None
+    job["ei"] = []
+    job["multi"] = n
+    return n
+
+
+def gen_fit_multi_job(rng):
+    """Several data sets fitted by one `fit` invocation x 0/1/2 refinements: every data set must be fitted from the CDC as given."""
+    job = {"cmd": "fit", "clause": "fit", "mode": "inproc", "files": [], "inputs": [], "ot": False, "nds": [], "average": False}
+    model = FIT_MODELS[int(rng.choice([0, 1, 3, 4, 6, 8]))]
+    job["cdc"], job["has_fixed"] = _model_cdc(rng, model, spread=0.1)
+    _multi_input(rng, job, model[0])
+    job["method"] = str(rng.choice(["leastsq", "least_squares", "leastsq", "least_squares", "lbfgsb", "nelder"]))
+    job["weight"] = str(rng.choice(FIT_WEIGHTS))
+    job["max_nfev"] = None
+    job["nr"] = int(rng.integers(0, 3))
+    job["rc"] = bool(rng.random() < 0.2)
+    _rand_fmt(rng, job)
+    return job
+
+
+def gen_drt_multi_job(rng):
+    job = {"cmd": "drt", "clause": "drt", "mode": "inproc", "files": [], "inputs": [], "ot": False, "nds": [], "average": False}
+    opts = {}
+    if rng.random() < 0.8:
+        job["method"] = "tr-nnls"
+        mid = str(rng.choice(["CIRCUIT_1", "CIRCUIT_2", "CIRCUIT_3", "CIRCUIT_5", "CIRCUIT_13"]))
+        opts["mode"] = str(rng.choice(["real", "imaginary", "complex"]))
+        if rng.random() < 0.5:
+            opts["lambda_value"] = float(rng.choice([1e-3, 1e-2]))
+        opts["max_iter"] = 100000
+    else:
+        job["method"] = "mrq-fit"
+        mid = "CIRCUIT_2"
+        opts["circuit"] = _model_cdc(rng, FIT_MODELS[1], spread=0.03, decorate=False)[0]
+        opts["max_nfev"] = 10
+    job["opts"] = opts
+    _multi_input(rng, job, mid)
+    job["threshold"] = float(rng.choice([0.0, 0.1, 0.3]))
+    job["analyze_peaks"] = None
+    _rand_fmt(rng, job)
+    return job
+
+
 def gen_subproc_job(rng, which):
     job = {"parse": gen_parse_job, "mock": gen_mock_job, "circuit": gen_circuit_job, "fit": gen_fit_job, "drt": gen_drt_job}[which](rng)
     job["mode"] = "subproc"
@@ -726,7 +808,7 @@ def _job_key(job):
         extra = (job["method"], o.get("mode"), "lambda_value" in o, "max_iter" in o, o.get("model_order"), job.get("threshold") is not None, job.get("analyze_peaks") is not None)
     elif job["cmd"] == "circuit":
         extra = (job.get("npd"), job.get("min_f") is None, len(job["inputs"]))
-    return (job["clause"], job["mode"], job.get("fmt"), job.get("osd"), bool(job.get("oi")), bool(job.get("ot")), bool(job.get("short")), inp, filt, extra)
+    return (job["clause"], job["mode"], job.get("fmt"), job.get("osd"), bool(job.get("oi")), bool(job.get("ot")), bool(job.get("short")), inp, filt, extra, job.get("multi", 1))
 
 
 def _ill_conditioned(job, work, expected):
@@ -888,6 +970,11 @@ def run_job(job, res):
                                  "msg": f"pyimpspec {' '.join(argv)}: column {c!r} row {ri}: json shows {p!r} for {x!r} (relative error {rel:.2g}, i.e. fewer than "
                                         f"{min(osd, C.JSON_SIG_DIGITS)} significant digits) - to_json() keeps ten decimals regardless of --output-significant-digits",
                                  "witness": witness({"printed_value": p, "api_value": x})})
+        if job.get("multi", 0) >= 2:
+            # several data sets in one invocation: every data set's tables were compared with an independent API route
+            st(f"multi_dataset_{clause}_jobs")
+            st(f"multi_dataset_{clause}_jobs:nr={job.get('nr') or 0}" if clause == "fit" else f"multi_dataset_{clause}_jobs:{job['method']}")
+            st(f"multi_dataset_{clause}_data_sets", job["multi"])
         if nontrivial:
             res["keys"].append(_job_key(job))
         if res["sample"] is None and mode == "inproc":
@@ -900,16 +987,17 @@ def run_job(job, res):
 # ------------------------------------------------------------------------------------------------
 # runner API
 # ------------------------------------------------------------------------------------------------
-QUICK = {"parse": (24, 24), "mock": (16, 24), "circuit": (16, 6), "fit": (32, 3), "drt": (24, 3), "subproc": 6}
-THOROUGH = {"parse": (160, 40), "mock": (120, 40), "circuit": (160, 8), "fit": (320, 4), "drt": (240, 4), "subproc": 32}
-_BLOCK = {"parse": 1, "mock": 2, "circuit": 3, "fit": 4, "drt": 5, "subproc": 6}
-_GEN = {"parse": gen_parse_job, "mock": gen_mock_job, "circuit": gen_circuit_job, "fit": gen_fit_job, "drt": gen_drt_job}
+QUICK = {"parse": (24, 24), "mock": (16, 24), "circuit": (16, 6), "fit": (32, 3), "drt": (24, 3), "fitmulti": (16, 1), "drtmulti": (8, 1), "subproc": 6}
+THOROUGH = {"parse": (160, 40), "mock": (120, 40), "circuit": (160, 8), "fit": (320, 4), "drt": (240, 4), "fitmulti": (120, 2), "drtmulti": (60, 2), "subproc": 32}
+_BLOCK = {"parse": 1, "mock": 2, "circuit": 3, "fit": 4, "drt": 5, "subproc": 6, "fitmulti": 7, "drtmulti": 8}
+_GEN = {"parse": gen_parse_job, "mock": gen_mock_job, "circuit": gen_circuit_job, "fit": gen_fit_job, "drt": gen_drt_job,
+        "fitmulti": gen_fit_multi_job, "drtmulti": gen_drt_multi_job}
 
 
 def gen_cases(tier, seed):
     P = QUICK if tier == "quick" else THOROUGH
     cases = []
-    for kind in ("parse", "mock", "circuit", "fit", "drt"):
+    for kind in ("parse", "mock", "circuit", "fit", "drt", "fitmulti", "drtmulti"):
         ncases, count = P[kind]
         for i in range(ncases):
             cases.append({"kind": kind, "seed": [int(seed), _BLOCK[kind], i], "count": count, "slow": tier == "thorough"})
@@ -963,6 +1051,10 @@ def finalize(agg):
                 inc.append(f"no {fmt} table of the '{clause}' clause was compared with the API")
     if sum(v for k, v in st.items() if k.startswith("commands:") and k.endswith(":subproc")) == 0:
         inc.append("no real `python -m pyimpspec` subprocess was run")
+    if st.get("multi_dataset_fit_jobs", 0) == 0 or sum(v for k, v in st.items() if k.startswith("multi_dataset_fit_jobs:nr=") and not k.endswith("=0")) == 0:
+        inc.append("no `fit` invocation with several data sets and >= 1 refinement was compared (state carried from one data set to the next would go unseen)")
+    if st.get("multi_dataset_drt_jobs", 0) == 0:
+        inc.append("no `drt` invocation with several data sets was compared")
     if st.get("output_files_read", 0) == 0:
         inc.append("no file written with --output-to was read back")
     info = {"tolerances": {"csv_relative": C.TOL_CSV, "json_absolute": C.JSON_ABS, "md": "0.5*10**(1-N) relative, N = --output-significant-digits"},
